@@ -1180,3 +1180,83 @@ func runM9(p *an.Prog, r *an.Result) {
 		r.Triv("-", "no library-container mutation of shared state outside the configuration phase", token.NoPos, "no memo table, counter or shared buffer is written at parse or render time")
 	}
 }
+
+// ---------------------------------------------------------------------------
+// M5c
+
+func init() {
+	register("M5c", "a slice, map or pointer read out of an object shared by all renders (engine, configuration, template) is never handed, outside the configuration phase, to a function that writes through that parameter", runM5c)
+}
+
+func runM5c(p *an.Prog, r *an.Result) {
+	ma := getMut(p)
+	shared := sharedWithCaptures(p)
+	for _, fn := range p.Funcs {
+		if isMainPkg(fn) || an.IsInit(fn) || isConfigPhase(fn) {
+			continue
+		}
+		name := an.FuncName(fn)
+		an.EachCall(fn, func(ci ssa.CallInstruction) {
+			c := ci.Common()
+			callee := c.StaticCallee()
+			if callee == nil || !p.InModule(callee) || callee.Blocks == nil {
+				return
+			}
+			off := 0
+			if c.IsInvoke() {
+				return
+			}
+			for i, a := range c.Args {
+				if !isRefType(a.Type()) {
+					continue
+				}
+				// the argument is read out of a field of a shared object
+				var owner *types.Named
+				for _, o := range an.Origins(a, an.StepValue) {
+					var addr ssa.Value
+					switch x := o.(type) {
+					case *ssa.UnOp:
+						if x.Op == token.MUL {
+							addr = x.X
+						}
+					case *ssa.Field:
+						addr = x
+					}
+					if addr == nil {
+						continue
+					}
+					if _, isFA := addr.(*ssa.FieldAddr); !isFA {
+						if _, isF := addr.(*ssa.Field); !isF {
+							continue
+						}
+					}
+					for _, n := range ownersOf(addr, true).shared {
+						if shared[n] {
+							owner = n
+						}
+					}
+				}
+				if owner == nil {
+					continue
+				}
+				r.Counts["shared values handed on"]++
+				s := ma.sums[callee]
+				pi := i + off
+				construct := fmt.Sprintf("%s of %s passed to %s", describe(p, a), an.TypeName(owner), an.FuncName(callee))
+				if s != nil && s.mutFrom[pi] != nil && len(s.mutFrom[pi][0]) > 0 {
+					var what, via string
+					for _, src := range s.mutFrom[pi][0] {
+						what, via = src.what+" at "+p.Pos(src.pos), src.via
+						break
+					}
+					r.Bad(name, construct, ci.Pos(), fmt.Sprintf("%s hands %s, which belongs to a %s shared by all renders, to %s, which writes through that parameter (%s; %s): parsing or rendering changes the shared object, and concurrent calls race on it", name, describe(p, a), an.TypeName(owner), an.FuncName(callee), what, via))
+				} else {
+					r.OK(name, construct, ci.Pos(), "the callee's mutation summary has no write into that parameter's own storage")
+				}
+			}
+		})
+	}
+	if r.Counts["shared values handed on"] == 0 {
+		r.Triv("-", "no shared slice, map or pointer is handed to a module function outside the configuration phase", token.NoPos, "")
+	}
+}
